@@ -11,14 +11,14 @@ from .common import DT, LX, PE, PL, PU, ckey
 
 P = "C01"
 EXPLANATION = (
-    "Static rules D1.1-D1.8 (DESIGN.md section 5, C01) on the plumbing every read depends on: both reply-splitting sites use the "
+    "Static rules D1.1-D1.10 (DESIGN.md section 5, C01) on the plumbing every read depends on: both reply-splitting sites use the "
     "same structure marker (A0 02, from the specification) and header lengths 4/2 and parse_value re-prepends exactly the header "
     "it removed; multi-service demultiplexing constants (padding = offset of the service byte in the connected reply parser, "
     "count at 0, offsets from 2, UINT entries, consecutive start/end pairing, positional pairing with the requests); decoder "
     "dispatch (array classes decoded with length=elements, single-element unwrapping, visible-attribute projection of "
     "structures); agreement of the dict records between producers and consumers (every must-exist key read is written by every "
     "producer); bit extraction operators; BOOL-array word arithmetic constants (32 = DWORD bits) and the ceiling idiom for the "
-    "element count; the reported type strings. Value equality with controller memory is a run-time fact and is not decided."
+    "element count; the reported type strings; hidden members never leave StructTag._decode at any nesting depth. Value equality with controller memory is a run-time fact and is not decided."
 )
 ASSUMPTIONS = ["the uploaded tag database describes the controller (C05)", "codec correctness is decided under C06/C07"]
 
